@@ -24,6 +24,24 @@ def replay(spec):
     corr = {"fourth_order_central_difference": 0 * J, "central_difference": h * h * d3 / 6,
             "forward_difference": h * d2 / 2, "backward_difference": -h * d2 / 2}[method]
     problems = []
+    if spec.get("kind") == "real_model" and spec.get("model") == "names":
+        for N_, I_, E_, S_ in ((0.7, 0.2, 2.0, 3.0), (1.3, 0.5, 0.4, 5.0)):
+            try:
+                Mn = Model(species=["E", "S"], parameters=[("N", N_), ("I", I_)], reactions=[(["S"], [], "general", {"rate": "N*E*S + I*S"})])
+            except Exception as e:
+                return {"reproduced": True, "observed": "a model over a species called E and parameters N, I cannot be built: %s: %s" % (type(e).__name__, e), "expected": "a model"}
+            order = Mn.get_species_list()
+            ie, is_ = order.index("E"), order.index("S")
+            x = [0.0, 0.0]
+            x[ie], x[is_] = E_, S_
+            gj = np.asarray(py_get_jacobian(Mn, list(x), method=method), dtype=float)
+            if abs(gj[is_, ie] + N_ * S_) > 1e-6 or abs(gj[is_, is_] + N_ * E_ + I_) > 1e-6:
+                problems.append("S -> 0 at rate N*E*S + I*S, N=%s I=%s at E=%s S=%s: Jacobian row of S [%s] = %s, analytic %s" % (N_, I_, E_, S_, method, gj[is_].tolist(),
+                                                                                                                             [-N_ * S_ if j == ie else -N_ * E_ - I_ for j in range(2)]))
+            gz = np.asarray(py_get_sensitivity_to_parameter(Mn, list(x), "N", method=method), dtype=float)
+            if abs(gz[is_] + E_ * S_) > 1e-6:
+                problems.append("d f/d N [%s] = %s, analytic -E*S = %s for S" % (method, gz.tolist(), -E_ * S_))
+        return {"reproduced": bool(problems), "observed": problems[:3], "expected": "derivatives of the written rate law"}
     if spec.get("kind") == "real_model" and spec.get("model") == "dimer":
         for k2_, A_ in ((0.7, 2.0), (1.3, 5.0), (0.2, 1.0)):
             Md = Model(species=["A", "B"], parameters=[("k2", k2_)], reactions=[(["A", "A"], ["B"], "massaction", {"k": "k2"})])
